@@ -1,4 +1,355 @@
-import RattrModel.FnAnalyser
+/-
+  C08 — calls resolve to the callee that Python's scoping rules would pick.
+
+  Model: `Context.getCallTarget` (the decision ladder of `Context.get_call_target`), `Context.add`
+  / `FnA.addArguments` (parameters are registered with a PLAIN add) — RattrModel/Context.lean,
+  RattrModel/FnAnalyser.lean.  Everything here is about the pure function, for all contexts.
+
+  In all statements `nameOf callee` is the name the ladder works with:
+  `callee` without trailing `()` and without `*`.
+
+  Holds (all contexts, all names):
+    `C08_literal_never_resolves`, `C08_subscript_never_resolves`, `C08_method_on_non_import`,
+    `C08_undefined_none`, `C08_bare_name_resolves_to_innermost` (+ `…_innermost_scope_wins`),
+    `C08_module_member_only_if_module_exists`, `C08_warn_flag_irrelevant`.
+  Defects of the pinned code (documented as theorems / counterexamples):
+    `C08_call_on_call_still_returns_target` — `f(p)(q)` is diagnosed yet `f` is returned (and
+      later inlined with the OUTER arguments);
+    `C08_params_do_not_shadow` / `C08_param_shadowing_cex` — a parameter named like a module-level
+      function does not shadow it, so a call through the parameter is inlined from that function;
+      `C08_params_would_shadow_if_argument` is the repaired behaviour (`is_argument=True`).
+-/
+import RattrProofs.Lemmas.VisitCtx
+
 namespace Rattr.C08
-theorem placeholder : True := trivial
+open Rattr Rattr.Strs Rattr.Context
+
+/-- the name the ladder works with. -/
+def nameOf (callee : Str) : Str := removeChar (withoutCallBrackets callee) '*'
+
+/-- first dotted component. -/
+def lhsOf (callee : Str) : Str := ((splitDot (nameOf callee)).head?).getD []
+
+def lhsIsImport (c : Context) (lhs : Str) : Bool :=
+  match get? c lhs with | some s => s.kind == .import_ | none => false
+
+/-- the target component of the ladder, as a function of the cleaned name only. -/
+def ladder (c : Context) (name lhs : Str) : Option Sym :=
+  if startsWith name ['@'] then none
+  else if containsSub name (lit "[]") then none
+  else if name != lhs && (get? c name).isNone && !lhsIsImport c lhs then none
+  else if name.contains '.' && (get? c name).isNone then targetInImportedModule c name
+  else get? c name
+
+theorem getCallTarget_fst (env : Env) (c : Context) (callee : Str) (coc warn : Bool) :
+    (getCallTarget env c callee coc warn).1 = ladder c (nameOf callee) (lhsOf callee) := by
+  unfold getCallTarget ladder lhsIsImport lhsOf nameOf
+  simp only []
+  generalize removeChar (withoutCallBrackets callee) '*' = name
+  generalize ((splitDot name).head?).getD [] = lhs
+  cases h1 : startsWith name ['@']
+  case true => simp
+  cases h2 : containsSub name (lit "[]")
+  case true => simp
+  simp only [Bool.false_eq_true, if_false]
+  cases hg : get? c lhs with
+  | none =>
+    simp only []
+    split
+    · rfl
+    · generalize (if (name.contains '.' && (get? c name).isNone) = true then targetInImportedModule c name
+        else get? c name) = tg
+      cases tg with
+      | none => simp only []; split <;> rfl
+      | some t =>
+        simp only []
+        split
+        · rfl
+        · split <;> rfl
+  | some sy =>
+    simp only []
+    split
+    · rfl
+    · generalize (if (name.contains '.' && (get? c name).isNone) = true then targetInImportedModule c name
+        else get? c name) = tg
+      cases tg with
+      | none => simp only []; split <;> rfl
+      | some t =>
+        simp only []
+        split
+        · rfl
+        · split <;> rfl
+
+/-! ### string facts -/
+
+theorem splitDotAux_no_dot (s cur : Str) (h : '.' ∉ s) : splitDotAux s cur = [cur.reverse ++ s] := by
+  induction s generalizing cur with
+  | nil => simp [splitDotAux]
+  | cons c r ih =>
+    simp only [List.mem_cons, not_or] at h
+    have hc : ¬ c = '.' := fun e => h.1 e.symm
+    simp [splitDotAux, hc, ih (c :: cur) h.2]
+
+theorem splitDot_no_dot (s : Str) (h : '.' ∉ s) : splitDot s = [s] := by
+  simp [splitDot, splitDotAux_no_dot s [] h]
+
+theorem lhsOf_bare (callee : Str) (h : '.' ∉ nameOf callee) : lhsOf callee = nameOf callee := by
+  simp [lhsOf, splitDot_no_dot _ h]
+
+theorem contains_dot_false {s : Str} (h : '.' ∉ s) : s.contains '.' = false := by
+  simpa using h
+
+/-! ### rungs that never resolve -/
+
+/-- a name spelled `@…` (literal / unnameable expression) never resolves. -/
+theorem C08_literal_never_resolves (env : Env) (c : Context) (callee : Str) (coc warn : Bool)
+    (h : startsWith (nameOf callee) ['@'] = true) :
+    (getCallTarget env c callee coc warn).1 = none := by
+  rw [getCallTarget_fst]; simp [ladder, h]
+
+/-- a call on a subscript (`a[i]()`, `a[i].m()`) never resolves. -/
+theorem C08_subscript_never_resolves (env : Env) (c : Context) (callee : Str) (coc warn : Bool)
+    (h : containsSub (nameOf callee) (lit "[]") = true) :
+    (getCallTarget env c callee coc warn).1 = none := by
+  rw [getCallTarget_fst]; unfold ladder; simp only [h, if_true]; split <;> rfl
+
+/-- a dotted name whose left-most part is not an Import, and which is not itself in the context,
+is a method call on some object: never resolved — in particular never to a same-named
+module-level function. -/
+theorem C08_method_on_non_import (env : Env) (c : Context) (callee : Str) (coc warn : Bool)
+    (hdot : nameOf callee ≠ lhsOf callee)
+    (hnot : get? c (nameOf callee) = none)
+    (hlhs : ∀ s, get? c (lhsOf callee) = some s → s.kind ≠ .import_) :
+    (getCallTarget env c callee coc warn).1 = none := by
+  rw [getCallTarget_fst]
+  have h3 : lhsIsImport c (lhsOf callee) = false := by
+    unfold lhsIsImport
+    split
+    · rename_i s hs; simpa using hlhs s hs
+    · rfl
+  have h1 : (nameOf callee != lhsOf callee) = true := by simpa using hdot
+  unfold ladder
+  simp only [h1, hnot, h3]
+  simp
+
+/-- a name that is nowhere in the context (and, if dotted, is no member of an existing imported
+module) yields no target. -/
+theorem C08_undefined_none (env : Env) (c : Context) (callee : Str) (coc warn : Bool)
+    (hnot : get? c (nameOf callee) = none)
+    (hmod : (nameOf callee).contains '.' = true → targetInImportedModule c (nameOf callee) = none) :
+    (getCallTarget env c callee coc warn).1 = none := by
+  rw [getCallTarget_fst]
+  unfold ladder
+  simp only [hnot, Option.isNone_none, Bool.and_true]
+  cases hd : (nameOf callee).contains '.' with
+  | true => simp [hmod hd]
+  | false => simp
+
+/-! ### bare names: the scope chain decides, innermost first -/
+
+/-- for a bare name (no dot, no `[]`, no `@`) the target is exactly what the scope chain says. -/
+theorem C08_bare_name_resolves_to_innermost (env : Env) (c : Context) (callee : Str) (coc warn : Bool)
+    (hat : startsWith (nameOf callee) ['@'] = false)
+    (hsub : containsSub (nameOf callee) (lit "[]") = false)
+    (hdot : '.' ∉ nameOf callee) :
+    (getCallTarget env c callee coc warn).1 = get? c (nameOf callee) := by
+  rw [getCallTarget_fst, lhsOf_bare callee hdot]
+  simp [ladder, hat, hsub, hdot]
+
+/-- … and the chain is searched innermost scope first. -/
+theorem C08_innermost_scope_wins (env : Env) (sc : Scope) (r : Context) (callee : Str) (coc warn : Bool)
+    (s : Sym)
+    (hat : startsWith (nameOf callee) ['@'] = false)
+    (hsub : containsSub (nameOf callee) (lit "[]") = false)
+    (hdot : '.' ∉ nameOf callee)
+    (hin : Dict.get? sc (nameOf callee) = some s) :
+    (getCallTarget env (sc :: r) callee coc warn).1 = some s := by
+  rw [C08_bare_name_resolves_to_innermost env _ callee coc warn hat hsub hdot]
+  exact get?_innermost sc r _ s hin
+
+/-- the `warn` flag only affects diagnostics, never the target. -/
+theorem C08_warn_flag_irrelevant (env : Env) (c : Context) (callee : Str) (coc : Bool) :
+    (getCallTarget env c callee coc true).1 = (getCallTarget env c callee coc false).1 := by
+  rw [getCallTarget_fst, getCallTarget_fst]
+
+/-! ### members of imported modules -/
+
+theorem firstSome_some {α β : Type} (f : α → Option β) (l : List α) (b : β)
+    (h : firstSome f l = some b) : ∃ a ∈ l, f a = some b := by
+  induction l with
+  | nil => simp [firstSome] at h
+  | cons a r ih =>
+    simp only [firstSome] at h
+    cases hf : f a with
+    | some b' =>
+      simp only [hf] at h
+      exact ⟨a, List.mem_cons_self, by rw [hf, h]⟩
+    | none =>
+      simp only [hf] at h
+      obtain ⟨x, hx, hfx⟩ := ih h
+      exact ⟨x, List.mem_cons_of_mem _ hx, hfx⟩
+
+/-- `m.f` is synthesised as a member of an imported module only if some dotted prefix of the name
+(the name itself included) resolves to an Import symbol whose module exists. -/
+theorem C08_module_member_only_if_module_exists (c : Context) (name : Str) (t : Sym)
+    (h : targetInImportedModule c name = some t) :
+    ∃ p ∈ namesRight name, ∃ m, get? c p = some m ∧ m.kind = .import_ ∧ m.modExists = true ∧
+      t.kind = .import_ ∧ t.qual = m.qual ++ '.' :: t.name := by
+  unfold targetInImportedModule at h
+  split at h
+  · cases h
+  · rename_i m hm
+    obtain ⟨p, hp, hpm⟩ := firstSome_some _ _ _ hm
+    by_cases hk : m.kind = .import_
+    · cases hme : m.modExists with
+      | false => simp [hk, hme] at h
+      | true =>
+        simp only [hk, hme] at h
+        simp only [bne_self_eq_false, Bool.false_eq_true, if_false, Bool.not_true,
+          Option.some.injEq] at h
+        subst h
+        exact ⟨p, hp, m, hpm, hk, hme, rfl, rfl⟩
+    · have : (m.kind != SymKind.import_) = true := by simpa using hk
+      simp [this] at h
+
+/-! ### defect: a call on a call result is diagnosed but still resolved -/
+
+/-- `f(p)(q)`: the culprit is a call on a call result; the ladder emits `call-on-call` ("unable to
+resolve") and nevertheless RETURNS the target of `f` — for every bare name bound in the context. -/
+theorem C08_call_on_call_still_returns_target (env : Env) (c : Context) (callee : Str) (t : Sym)
+    (hat : startsWith (nameOf callee) ['@'] = false)
+    (hsub : containsSub (nameOf callee) (lit "[]") = false)
+    (hdot : '.' ∉ nameOf callee)
+    (hb : get? c (nameOf callee) = some t) :
+    getCallTarget env c callee true true =
+      (some t, [mkDiag .error "call-on-call" (withCallBrackets callee)]) := by
+  have hl := lhsOf_bare callee hdot
+  have hd := contains_dot_false hdot
+  unfold nameOf lhsOf at *
+  unfold getCallTarget
+  simp only [hat, hsub, hd, hb]
+  simp
+
+def env0 : Env := ⟨[], []⟩
+def fSym : Sym := { kind := .func, name := "f".toList, callable := true,
+                    iface := some ⟨[], ["x".toList], none, [], none⟩ }
+def helperSym : Sym := { kind := .func, name := "helper".toList, callable := true,
+                         iface := some ⟨[], ["x".toList], none, [], none⟩ }
+
+/-- concrete instance: root context has Func `f`; the callee spelling of `f(p)(q)` is `f()()`. -/
+theorem C08_cex_call_on_call :
+    getCallTarget env0 [[], [("f".toList, fSym)]] "f()()".toList true true =
+      (some fSym, [mkDiag .error "call-on-call" "f()()".toList]) := by decide
+
+/-! ### defect: parameters do not shadow -/
+
+/-- `add_arguments_to_context` uses a plain `add`: a parameter whose name is visible outside keeps
+resolving to the OUTER symbol (for every context, parameter list and name). -/
+theorem C08_params_do_not_shadow (s : St) (ps : Params) (x : Str)
+    (h : Context.contains s.ctx x = true) :
+    get? (FnA.addArguments { s with ctx := push s.ctx } ps).ctx x = get? s.ctx x := by
+  rw [FnA.addArguments_does_not_shadow _ ps x (by simpa using h)]
+  simp
+
+/-- hence the call target of a bare call through such a parameter is the outer symbol. -/
+theorem C08_call_through_param_resolves_outer (env : Env) (s : St) (ps : Params) (callee : Str)
+    (coc warn : Bool)
+    (hat : startsWith (nameOf callee) ['@'] = false)
+    (hsub : containsSub (nameOf callee) (lit "[]") = false)
+    (hdot : '.' ∉ nameOf callee)
+    (h : Context.contains s.ctx (nameOf callee) = true) :
+    (getCallTarget env (FnA.addArguments { s with ctx := push s.ctx } ps).ctx callee coc warn).1
+      = get? s.ctx (nameOf callee) := by
+  rw [C08_bare_name_resolves_to_innermost env _ callee coc warn hat hsub hdot,
+    C08_params_do_not_shadow s ps _ h]
+
+/-- the repair (`is_argument=True`): every parameter resolves to its own Name symbol. -/
+theorem C08_params_would_shadow_if_argument (c : Context) (names : List Str) (x : Str)
+    (hx : x ∈ names) :
+    get? (names.foldl (fun c n => add c (nameSym n) true) c) x = some (nameSym x) := by
+  induction names generalizing c with
+  | nil => cases hx
+  | cons n r ih =>
+    simp only [List.foldl_cons]
+    by_cases hr : x ∈ r
+    · exact ih _ hr
+    · have hn : x = n := by
+        rcases List.mem_cons.mp hx with h | h
+        · exact h
+        · exact absurd h hr
+      subst hn
+      have : ∀ (l : List Str) (c : Context), x ∉ l →
+          get? (l.foldl (fun c n => add c (nameSym n) true) c) x = get? c x := by
+        intro l
+        induction l with
+        | nil => intro c _; rfl
+        | cons m l ihl =>
+          intro c hm
+          simp only [List.mem_cons, not_or] at hm
+          simp only [List.foldl_cons]
+          rw [ihl _ hm.2]
+          exact get?_add_other c (nameSym m) true x (fun e => hm.1 e.symm)
+      rw [this r _ hr]
+      exact get?_add_arg c (nameSym x)
+
+/-- the defect, concretely: root context has Func `helper`; a function with a parameter named
+`helper` — as analysed (plain add) the name still resolves to the Func, so `helper()` inside is
+inlined from the module-level function; with `is_argument=True` it resolves to the parameter, which
+is not callable-resolvable. -/
+theorem C08_param_shadowing_cex :
+    let root : Context := [[("helper".toList, helperSym)]]
+    let ps : Params := ⟨[], ["helper".toList], none, [], none⟩
+    let asAnalysed := (FnA.addArguments { ctx := push root } ps).ctx
+    let repaired := add (push root) (nameSym "helper".toList) true
+    get? asAnalysed "helper".toList = some helperSym ∧
+    (getCallTarget env0 asAnalysed "helper()".toList false true).1 = some helperSym ∧
+    get? repaired "helper".toList = some (nameSym "helper".toList) ∧
+    (getCallTarget env0 repaired "helper()".toList false true).1 = some (nameSym "helper".toList) ∧
+    (nameSym "helper".toList).kind = .name := by decide
+
+/-! ### full statement (single-context form) and its refutation -/
+
+/-- whether a parameter list (of the calling function or an enclosing lambda) binds `x`. -/
+def C08_param_clause : Prop :=
+  ∀ (env : Env) (root : Context) (ps : Params) (callee : Str) (t : Sym),
+    nameOf callee ∈ ps.all →
+    (getCallTarget env (FnA.addArguments { ctx := push root } ps).ctx callee false true).1 = some t →
+    t.kind = .name
+
+def C08_call_on_call_clause : Prop :=
+  ∀ (env : Env) (c : Context) (callee : Str), (getCallTarget env c callee true true).1 = none
+
+/-- the property over this model: a call through a parameter never resolves to a module-level
+definition, and a call on a call result resolves to nothing. -/
+def C08_full : Prop := C08_param_clause ∧ C08_call_on_call_clause
+
+theorem C08_param_clause_false : ¬ C08_param_clause := by
+  intro h
+  have := h env0 [[("helper".toList, helperSym)]] ⟨[], ["helper".toList], none, [], none⟩
+    "helper()".toList helperSym (by decide) (by decide)
+  revert this; decide
+
+theorem C08_call_on_call_clause_false : ¬ C08_call_on_call_clause := by
+  intro h
+  have := h env0 [[], [("f".toList, fSym)]] "f()()".toList
+  revert this; decide
+
+theorem C08_full_false : ¬ C08_full := fun h => C08_param_clause_false h.1
+
+/-! ### non-vacuity -/
+
+example : startsWith (nameOf "@Constant.join()".toList) ['@'] = true := by decide
+example : containsSub (nameOf "a[].m()".toList) (lit "[]") = true := by decide
+example : nameOf "obj.helper()".toList ≠ lhsOf "obj.helper()".toList ∧
+    get? [[("helper".toList, helperSym)]] (nameOf "obj.helper()".toList) = none := by decide
+example : (getCallTarget env0 [[("helper".toList, helperSym)]] "obj.helper()".toList false true).1 = none :=
+  C08_method_on_non_import env0 _ _ false true (by decide) (by decide) (by
+    intro s hs
+    have h0 : get? [[("helper".toList, helperSym)]] (lhsOf "obj.helper()".toList) = none := by decide
+    rw [h0] at hs; cases hs)
+example : targetInImportedModule
+    [[("math".toList, { kind := .import_, name := "math".toList, qual := "math".toList, modExists := true })]]
+    "math.sin".toList =
+    some { kind := .import_, name := "sin".toList, callable := true, qual := "math.sin".toList } := by decide
+
 end Rattr.C08
